@@ -9,7 +9,6 @@
 //
 //   case string:  "<variant> <tree>"   e.g.  "static9 mul_ee(sin(x0),div_se(c1,x2))"
 //                 "all <tree>"         (every variant)
-//                 "compile atan2_se"   (compile probe, see below)
 #include "vf.hpp"
 #include "C16_ad.hpp"
 #include <sys/resource.h>
@@ -26,11 +25,10 @@ using namespace c16;
 
 static vf::Run* R;
 static std::vector<Variant> V;
-static bool g_dyn_div_se_broken = false;
 static uint64_t g_obs_mod = 64;
 
 // local counters (flushed to run.count at the end)
-static long long n_trees = 0, n_checked = 0, n_skip[8] = {0}, n_dyn_skipped = 0, n_lift = 0, n_lift_skipped = 0, n_y0 = 0, n_obs = 0, n_unblamed = 0;
+static long long n_trees = 0, n_checked = 0, n_skip[8] = {0}, n_lift = 0, n_lift_skipped = 0, n_y0 = 0, n_obs = 0, n_unblamed = 0;
 static std::vector<long long> g_fail_per_variant;
 
 static const double TOL_V = 1e-14, TOL_D = 1e-12, FLOOR = 1e-300;
@@ -68,7 +66,7 @@ static void blame(const Variant& v, const Tree& t) {
         catch (const std::exception& e) { R->violation("C16:" + v.cls + ":" + op + ":throws", casestr(v, sub) + " threw: " + e.what(), rp); return; }
         if (!what) continue;
         bool y0 = false;
-        if (x.kind == ATAN2_EE) { Dual yr; Tree ys = subtree(t, x.b); if (ref_eval(ys, ys.root(), 1, yr) == SK_OK && yr.v == 0) y0 = true; }
+        if (x.kind == ATAN2_EE || x.kind == ATAN2_SE) { Dual yr; Tree ys = subtree(t, x.kind == ATAN2_EE ? x.b : x.a); if (ref_eval(ys, ys.root(), 1, yr) == SK_OK && yr.v == 0) y0 = true; }
         if (y0) {
             // Math.hpp atan2: alpha/(y*y) with y == 0 -> 0/0; shared template code, identical in every variant: one key
             R->violation("C16:math:atan2:y-zero", "atan2(x, y) with y == 0 and x != 0 (inside the domain, partials -y'/x): " + casestr(v, sub) + " gives " + describe(out, ref, v.n, what, slot) + " [same in every variant: Math.hpp computes alpha/(y*y) = 0/0]", rp);
@@ -92,7 +90,6 @@ static void check_tree(const Tree& t, int only = -1) {
     n_checked++;
     const Node& root = t.n[t.root()];
     const KindInfo& rk = info(root.kind);
-    const bool has_div_se = contains(t, DIV_SE);
     bool lift = rk.lifted != LEAF;
     if (lift && root.kind == POW_ES) {       // pow(Evaluation, Evaluation) needs base > 0; pow(Evaluation, scalar) does not
         Dual c; Tree cs = subtree(t, root.a);
@@ -106,7 +103,6 @@ static void check_tree(const Tree& t, int only = -1) {
     for (size_t vi = 0; vi < V.size(); ++vi) {
         if (only >= 0 && (int)vi != only) continue;
         const Variant& v = V[vi];
-        if (v.dynamic && has_div_se && g_dyn_div_se_broken) { n_dyn_skipped++; continue; }
         if (v.dynamic) R->current(v.name + " " + ts);
         R->evaluations++;
         int slot = -1, what = 0;
@@ -141,7 +137,13 @@ static void check_tree(const Tree& t, int only = -1) {
     }
 }
 
-// ---- the sighted defect: dynamic `scalar / Evaluation` --------------------
+// ---- guard for dynamic `scalar / Evaluation` -------------------------------
+// (defect sighted in the design phase, fixed since: `Evaluation tmp(a)` picked
+// the (int numDerivatives) constructor and tripped an assertion.)  The 4x4
+// isolated cases per dynamic size run in forked children first so that a
+// regression gets its own key; the main enumeration excludes nothing: should
+// the operator abort again, the shard dies there and vcheck reports the crash
+// with the published case.
 // Runs ONE tree on ONE variant in a forked child: 0 ok, 3 value, 4 derivative,
 // 5 exception, 6 outside domain; negative: killed by that signal (assert -> 6).
 static int run_in_child(const Variant& v, const Tree& t) {
@@ -180,37 +182,7 @@ static void probe_dynamic_div_se() {
     }
     R->count("dynamic_scalar_div_eval_isolated_cases", R->shard == 0 ? ntot : 0);
     R->count("dynamic_scalar_div_eval_isolated_failures", R->shard == 0 ? nbad : 0);
-    if (nbad) { g_dyn_div_se_broken = true; report_dyn_div_se(*fv, ft, first_rc, nbad, ntot); }
-}
-
-// ---- compile probe: atan2(scalar, Evaluation) -----------------------------
-// Math.hpp declares atan2(const ValueType& x, const Evaluation& y) but its
-// body calls x.value() on the scalar, so the overload cannot be instantiated
-// and the form cannot be part of the run-time grammar.  The probe makes that
-// visible instead of silently leaving the form out: a control TU using
-// atan2(Evaluation, scalar) must compile, the target TU must too.
-static void compile_probe() {
-    const char* sc = std::getenv("VERIF_SCRATCH"); const char* repo = std::getenv("VERIF_REPO");
-    const std::string dir = std::string(sc ? sc : "/tmp") + "/C16." + std::to_string(getpid());
-    if (std::system(("mkdir -p " + dir).c_str())) { R->count("compile_probe_unavailable"); return; }
-    auto tu = [&](const std::string& file, const std::string& expr) {
-        std::ofstream(dir + "/" + file) << "#include <opm/material/densead/Evaluation.hpp>\n#include <opm/material/densead/Math.hpp>\n"
-            "using E = Opm::DenseAd::Evaluation<double, 3>;\nE f(const E& x) { return " << expr << "; }\n";
-        return std::system(("LC_ALL=C g++ -std=c++17 -fsyntax-only -w -I" + std::string(repo ? repo : "/repo") + " " + dir + "/" + file + " > " + dir + "/" + file + ".log 2>&1").c_str());
-    };
-    const int rc_control = tu("control.cpp", "Opm::DenseAd::atan2(x, 2.0)");
-    const int rc_target = tu("target.cpp", "Opm::DenseAd::atan2(2.0, x)");
-    R->evaluations += 2;
-    std::string log; { std::ifstream f(dir + "/target.cpp.log"); std::stringstream ss; ss << f.rdbuf(); log = ss.str(); }
-    std::system(("rm -rf " + dir).c_str());
-    if (rc_control != 0) { R->count("compile_probe_unavailable"); return; }     // no compiler / headers unusable: says nothing
-    R->count("compile_probe_run");
-    if (rc_target != 0 && log.find("error") != std::string::npos) {
-        size_t p = log.find("error"); size_t b = log.rfind('\n', p); b = b == std::string::npos ? 0 : b + 1; size_t e = log.find('\n', p);
-        R->violation("C16:math:atan2-scalar-eval:does-not-compile",
-                     "Opm::DenseAd::atan2(scalar, Evaluation) cannot be instantiated (while atan2(Evaluation, scalar) compiles): " + log.substr(b, e - b).substr(0, 300) + " — Math.hpp atan2(const ValueType& x, const Evaluation& y) calls x.value() on the scalar; the mixed form therefore cannot agree with the all-Evaluation form",
-                     "{\"case\": \"compile atan2_se\"}");
-    }
+    if (nbad) report_dyn_div_se(*fv, ft, first_rc, nbad, ntot);
 }
 
 int main(int argc, char** argv) {
@@ -233,7 +205,7 @@ int main(int argc, char** argv) {
     g_obs_mod = thorough ? 256 : 64;
 
     run.rule = std::string("ALL expression trees of depth <= 2") + (thorough ? " plus ALL trees of depth 3 with <= 5 nodes (leaves counted)" : "")
-        + " over 47 operator forms: + - * / as Eval.Eval / Eval.scalar / scalar.Eval, += -= *= /= with Evaluation and scalar rhs, unary minus, pow (3 overloads), sqrt exp log log10 sin cos tan asin acos atan sinh cosh asinh acosh abs, atan2 (Eval,Eval / Eval,scalar), min max (3 forms each);"
+        + " over 48 operator forms: + - * / as Eval.Eval / Eval.scalar / scalar.Eval, += -= *= /= with Evaluation and scalar rhs, unary minus, pow (3 overloads), sqrt exp log log10 sin cos tan asin acos atan sinh cosh asinh acosh abs, atan2 min max (3 forms each);"
           " leaves x0..x3 = {0.37,-0.62,1.3,2.1} with derivative slot i = +-prime[i]/{9.7,10.1,10.3,10.7}[leaf], scalars c0..c3 = {0.75,2,-1.25,1.3};"
           " executed on EVERY variant: static 1..12, generic 13..16, dynamic<.,8> with run-time sizes " + vf::join_ints(dyn_sizes)
         + "; oracle: independent dual number (value + vector of partials, calculus rules, error scale): value to 1e-14, every partial to 1e-12 relative to the conditioning scale;"
@@ -244,11 +216,9 @@ int main(int argc, char** argv) {
         "values: the 4-leaf / 4-scalar fingerprint alphabet only; the tree structure (operator x operator x operand form x leaf assignment) is exhaustive up to the bound, the real line is not",
         "trees whose reference leaves a function's domain (log/sqrt <= 0, |asin/acos arg| >= 1, acosh arg <= 1, division by 0, pow with base <= 0 resp. negative base and non-integer exponent, atan2(0,0)), sits on a kink (abs(0), min/max tie), is ill-conditioned by the formula itself (|asin/acos arg| > 0.99, acosh arg < 1.01) or leaves 1e-60..1e60 are skipped and counted",
         "scalar operands are double only (int / float RhsValueType not enumerated); ValueType = double only; self-aliasing compound assignment (a *= a) not enumerated",
-        "atan2(scalar, Evaluation) cannot be instantiated at all; covered only by the compile probe",
         "Evaluation factories other than createConstant + setDerivative (createVariable, createBlank, copyDerivatives) are outside this property's operator/function scope"};
 
     if (!rv.empty()) {
-        if (rv == "compile") { compile_probe(); return run.finish(); }
         int vi = -1; for (size_t i = 0; i < V.size(); ++i) if (V[i].name == rv) vi = (int)i;
         if (vi < 0 && rv != "all") throw std::runtime_error("unknown variant " + rv);
         Tree t = parse_tree(rt);
@@ -265,8 +235,7 @@ int main(int argc, char** argv) {
         return run.finish();
     }
 
-    probe_dynamic_div_se();
-    if (run.shard == 0) compile_probe();
+    probe_dynamic_div_se();       // cheap guard with a defect-specific key; excludes nothing from the enumeration below
 
     // ---- enumeration ------------------------------------------------------
     std::vector<std::pair<int, int>> ul;      // operator forms with ONE Evaluation operand: (kind, scalar index)
@@ -316,7 +285,6 @@ int main(int argc, char** argv) {
     run.count("trees_judged", n_checked);
     for (int s = 1; s < 5; ++s) run.count(skip_name(s), n_skip[s]);
     run.count("trees_with_atan2_y_zero", n_y0);
-    run.count("dynamic_evaluations_skipped_scalar_div_eval_broken", n_dyn_skipped);
     run.count("mixed_vs_lifted_comparisons", n_lift);
     run.count("mixed_vs_lifted_skipped_pow_negative_base", n_lift_skipped);
     run.count("observations_recorded", n_obs);
